@@ -34,9 +34,14 @@ func (k Keeper) OnCollectFee(ctx sdk.Context, pool types.Pool, fee sdk.Coins) er
 
 	// handling the case, pool does not enough liquidity to swap fees to revenue token when liquidity is being fully removed
 	cacheCtx, write := ctx.CacheContext()
+	// pool.PoolAssets shares its backing array with the caller's pool, which is stored after this call:
+	// when the conversion is discarded its in-memory balance updates have to be discarded with it
+	poolAssetsBefore := pool.GetAllPoolAssets()
 	err = k.SwapFeesToRevenueToken(cacheCtx, pool, revenueAmount)
 	if err == nil {
 		write()
+	} else {
+		copy(pool.PoolAssets, poolAssetsBefore)
 	}
 	return nil
 }
